@@ -7,6 +7,9 @@ ID = "C13"
 CLAIMED = True
 MODEL_GROUP = "sched"
 THEOREM_FILE = "Props/C13.v"
+# the cache clause ("forgets the records it cached for the stopped browse") lives in the life group\'s model
+EXTRA_THEOREM_FILES = ["Props/C13Cache.v"]
+PARAMS = ["sched", "life"]
 LEVEL_TEXT = ("Coq theorems over a Gallina model of the daemon's scheduling core: for every well-formed history of "
               "browse / browse again / browse_cache / stop_browse / resolve_hostname (any timeout, mixed-case names) / "
               "stop_resolve_hostname / shutdown calls and iteration times (early, on time or late) "
@@ -41,8 +44,13 @@ TRUSTED = [
     "hash maps as one association list (cross-channel order of events inside one iteration is not compared); "
     "listener.send never fails (receivers are held and drained by the caller); to_lowercase on ASCII only",
 ]
-PARTIAL = ("slice: histories without incoming datagrams (cache empty): ServiceFound-before-ServiceResolved and "
-           "'forgets the cached records' are not covered here (cache layer). A channel whose search is REPLACED by a "
+PARTIAL = ("scheduler slice: histories without incoming datagrams (cache empty). 'Forgets the cached records' is proved "
+           "on the cache model of C11/C12 (Props/C13Cache.v, over all its histories): what remove_service_type removes "
+           "(the PTR Vec of the type, SRV/TXT of the instances it named, addresses of their hosts unless another SRV "
+           "still names the host) and leaves, that no PTR/SRV/TXT query is sent without an open browse, and that a "
+           "later browse sees only what arrived since; the model-free stop-forgets family observes the same on the real "
+           "daemon. ServiceFound-before-ServiceResolved with datagrams is clause F of chk_C04 (browser group), not "
+           "repeated here. A channel whose search is REPLACED by a "
            "newer browse/resolve of the same key gets no SearchStopped: it is disconnected silently (the daemon drops "
            "its sender); chk_C13 demands 'no further event' there - reported as an observation, the text lists "
            "replacement under C19 ('replaces the earlier search'), not among the stop causes. Channel disconnection "
